@@ -5,3 +5,4 @@ pub mod slotmap;
 pub mod slots;
 pub mod shapes;
 pub mod parse;
+pub mod canon;
